@@ -112,6 +112,7 @@ func (fc *fnCtx) evalHole(text string, ev *evalCtx) Val {
 
 // hasLocalNamed: the function under contract has a local variable or captured variable of this name.
 func (fc *fnCtx) hasLocalNamed(name string) bool {
+	name = fc.codeName(name)
 	for _, b := range fc.fn.Blocks {
 		for _, ins := range b.Instrs {
 			if a, ok := ins.(*ssa.Alloc); ok && a.Comment == name {
@@ -127,12 +128,31 @@ func (fc *fnCtx) hasLocalNamed(name string) bool {
 	return false
 }
 
+// codeName / contractName translate between the name a contract uses for a local variable and the
+// name the variable has in the code (they differ only after the rename-tolerant rebinding, see rebind.go).
+func (fc *fnCtx) codeName(contractName string) string {
+	if n, ok := fc.alias[contractName]; ok {
+		return n
+	}
+	return contractName
+}
+
+func (fc *fnCtx) contractName(codeName string) string {
+	for k, v := range fc.alias {
+		if v == codeName {
+			return k
+		}
+	}
+	return codeName
+}
+
 func (fc *fnCtx) localAlloc(name string) *ssa.Alloc {
 	want := 0
 	if i := strings.Index(name, "__AT__"); i >= 0 {
 		want, _ = strconv.Atoi(name[i+6:])
 		name = name[:i]
 	}
+	name = fc.codeName(name)
 	var found []*ssa.Alloc
 	for _, b := range fc.fn.Blocks {
 		for _, ins := range b.Instrs {
@@ -213,7 +233,7 @@ func (fc *fnCtx) evalExpr(e ast.Expr, ev *evalCtx, text string) Val {
 		if a == nil {
 			// free variable of a closure
 			for _, fv := range fc.fn.FreeVars {
-				if fv.Name() == name {
+				if fv.Name() == fc.codeName(name) {
 					p := fc.val(fv)
 					return fc.load(ev.cur, fc.pointerAddr(p, fv.Type().(*types.Pointer).Elem()))
 				}
